@@ -11,3 +11,4 @@ CONSTANTS
   HandoffChecksCapacity = FALSE
   ForwardCountedOnce = FALSE
   SourceKeyFromMapping = FALSE
+  WithFail = FALSE
